@@ -1,589 +1,84 @@
-import GoatProofs.Lemmas.Glue
-import GoatProofs.Lemmas.C18Exec
-import GoatProofs.Lemmas.C18Arith
-import GoatProofs.Lemmas.C18Bytes
-import GoatProofs.Lemmas.C18Bits
-import Goat.Model.Fe256
+import GoatProofs.Lemmas.C18Field
+import GoatProofs.Lemmas.C18Scalar
+import GoatProofs.Group
 /-
-C18 — secp256k1 field arithmetic and scalar reduction are correct (see docs/C18.md).
+C18 — secp256k1 field arithmetic and scalar reduction are correct (docs/C18.md).
 
-The limb programs `Gen.Fe256.*` / `Gen.Sc256.*` are regenerated from internal/curve256k1/field/fe.go and
-internal/curve256k1/scalar.go on every run.  Each `…_check` below is re-established by kernel
-evaluation of the verified reflective checker; `Reflect.check_sound` turns it into EXACT linear
-identities between program phases (carries are atoms), and the value-level clauses ("x, y < p ⇒ no
-additional carry", "result < p") follow from whole-value bounds by the small integer lemmas of
-`GoatProofs/Lemmas/C18Arith.lean`.
+Field part: `GoatProofs/Lemmas/C18Field.lean` (namespace `C18`): `reduce_spec`, `add_spec`, `neg_spec`,
+`sub_spec`, `mul_spec`, `square_spec`, `setBytes_spec`, `bytes_spec`, `bytes_setBytes`, `equal_spec`,
+`isZero_spec`, `select_spec`, `swap_spec`, `inv_rep`, `inv_mul_cancel`, `seq_closed`.
+Scalar limb programs: `GoatProofs/Lemmas/C18Scalar.lean` (namespace `C18.Sc`).
+This file instantiates the abstract byte loop of `GoatProofs/Group.lean` with goat's `scalar` type:
+`normalizeScalar(k) = bigEndian(k) mod n` for EVERY byte string k.
 -/
 namespace C18
-open Reflect Glue Model.Fe256 C18X C18B
-set_option maxRecDepth 100000
+open Model.Sc256 (N State lsh8 add8b zero5)
 set_option exponentiation.threshold 2000
 
-def U64 : Int := 2 ^ 64 - 1
-def zeros (n : Nat) : List Int := List.replicate n 0
+/-- group order n as a natural number -/
+def nNat : Nat := 0xFFFFFFFFFFFFFFFFFFFFFFFFFFFFFFFEBAAEDCE6AF48A03BBFD25E8CD0364141
 
-/-- four 64-bit words -/
-def Lim (v : Limbs) : Prop := v.length = 4 ∧ AllIn 0 U64 v
-/-- the invariant of C18: four 64-bit words whose value is below p (fully reduced) -/
-def Red (v : Limbs) : Prop := Lim v ∧ val v < P
+theorem N_eq : N = (nNat : Int) := by decide
 
-theorem lim_cases {v : Limbs} (h : Lim v) : ∃ a b c d, v = [a, b, c, d] ∧
-    (0 ≤ a ∧ a ≤ 2 ^ 64 - 1) ∧ (0 ≤ b ∧ b ≤ 2 ^ 64 - 1) ∧ (0 ≤ c ∧ c ≤ 2 ^ 64 - 1) ∧ (0 ≤ d ∧ d ≤ 2 ^ 64 - 1) := by
-  obtain ⟨hl, hr⟩ := h
-  match v, hl with
-  | [a, b, c, d], _ =>
-    exact ⟨a, b, c, d, rfl, by simpa [U64] using hr a (by simp), by simpa [U64] using hr b (by simp),
-      by simpa [U64] using hr c (by simp), by simpa [U64] using hr d (by simp)⟩
+namespace Sc
 
-theorem lim_mk (a b c d : Int) (ha : 0 ≤ a ∧ a ≤ 2 ^ 64 - 1) (hb : 0 ≤ b ∧ b ≤ 2 ^ 64 - 1)
-    (hc : 0 ≤ c ∧ c ≤ 2 ^ 64 - 1) (hd : 0 ≤ d ∧ d ≤ 2 ^ 64 - 1) : Lim [a, b, c, d] := by
-  refine ⟨rfl, ?_⟩
-  intro x hx
-  simp only [List.mem_cons, List.not_mem_nil, or_false] at hx
-  unfold U64
-  rcases hx with h | h | h | h <;> subst h <;> assumption
+theorem sval_nonneg {s : State} (h : SLim s) : 0 ≤ sval s := by
+  obtain ⟨a, b, c, d, e, rfl, ha, hb, hc, hd, he⟩ := slim_cases h
+  rw [sval5]; omega
 
-theorem val4 (a b c d : Int) : val [a, b, c, d] = a + 2 ^ 64 * b + 2 ^ 128 * c + 2 ^ 192 * d := by
-  simp only [val]; ring
+/-- value of the accumulator as a natural number -/
+def nval (s : State) : Nat := (sval s).toNat
 
-theorem lim_within (v : Limbs) (h : Lim v) : inputsWithin (zeros 4) (List.replicate 4 U64) v := by
-  have := within_replicate_append 0 U64 v [] [] [] h.2 rfl rfl within_nil
-  rw [h.1] at this; simpa [zeros] using this
+theorem nval_cast {s : State} (h : SLim s) : ((nval s : Nat) : Int) = sval s :=
+  Int.toNat_of_nonneg (sval_nonneg h)
 
-/-! ## `reduce` -/
+theorem u8_bounds (b : UInt8) : (0 : Int) ≤ (b.toNat : Int) ∧ (b.toNat : Int) ≤ 255 := by
+  have := b.toNat_lt
+  constructor <;> omega
 
-/-- `reduce` without its last op `v.l3 += c` -/
-def redP : Prog := Gen.Fe256.reduce.take 13
+/-- goat's `scalar` type satisfies the limb-level contract of the byte loop
+    (`Model.WindowMul.normalizeScalar`): invariants `Inv`/`Mid`, `Lsh8 ≡ ·256`, `Add8 ≡ +b`, `bytes = mod n` -/
+theorem scalarLimbSpec : Model.WindowMul.ScalarLimbSpec nNat Inv Mid nval lsh8 add8b Model.Sc256.bytes where
+  lsh8_inv := fun s h => (lsh8_spec s h).1
+  add8_inv := fun s b h => (add8_spec s _ h (u8_bounds b)).1
+  lsh8_val := fun s h => by
+    obtain ⟨hm, q, hq, e⟩ := lsh8_spec s h
+    have e1 := nval_cast hm.1
+    have e2 := nval_cast h.1
+    rw [← e1, ← e2, N_eq] at e
+    have : ((nval (lsh8 s) % nNat : Nat) : Int) = ((256 * nval s % nNat : Nat) : Int) := by
+      push_cast
+      rw [e, Int.sub_mul_emod_self_left]
+    exact_mod_cast this
+  add8_val := fun s b h => by
+    obtain ⟨hi, e⟩ := add8_spec s _ h (u8_bounds b)
+    have e1 := nval_cast hi.1
+    have e2 := nval_cast h.1
+    have : ((nval (add8b s b) : Nat) : Int) = ((nval s + b.toNat : Nat) : Int) := by
+      push_cast; rw [e2]; show ((nval (Model.Sc256.add8 s _) : Nat) : Int) = _; rw [e1, e]
+    rw [Nat.cast_inj.mp this]
+  bytes_val := fun s h => by
+    obtain ⟨_, e⟩ := bytes_spec s h
+    have e2 := nval_cast h.1
+    rw [← e2, N_eq] at e
+    exact_mod_cast e
+  bytes_len := fun s h => (bytes_spec s h).1
 
-def cfgReduceId : Cfg :=
-  { inLo := zeros 4, inHi := List.replicate 4 U64, obs := [12, 14, 16, 15, 9],
-    outLo := zeros 5, outHi := [U64, U64, U64, 1, 1],
-    weights := [1, 2 ^ 64, 2 ^ 128, 2 ^ 192, -K], spec := limbPoly 64 3 0 0, modulus := 0 }
+theorem zero5_inv : Inv zero5 := by
+  refine ⟨⟨rfl, fun x hx => ?_⟩, by decide, by decide⟩
+  rw [List.eq_of_mem_replicate hx]; exact ⟨by decide, by decide⟩
 
-theorem reduce_id_check : check redP cfgReduceId = true := by decide +kernel
-theorem reduce_wf : opsLt Gen.Fe256.reduce.nIn Gen.Fe256.reduce.body := by decide
-theorem redP_wf : opsLt redP.nIn redP.body := by decide
+end Sc
 
-theorem reduce_spec (v : Limbs) (hv : Lim v) : Red (reduce v) ∧ val (reduce v) = val v % P := by
-  obtain ⟨a, b, c, d, rfl, ha, hb, hc, hd⟩ := lim_cases hv
-  have g := check_sound redP cfgReduceId reduce_id_check [a, b, c, d] rfl (lim_within _ hv) (sideOK_of_none _ _ rfl)
-  let ρ := redP.val [a, b, c, d]
-  have hρ : ∀ i, xval false redP [a, b, c, d] i = ρ i := fun _ => rfl
-  have i0 : ρ 0 = a := g.inputs 0 (by decide)
-  have i1 : ρ 1 = b := g.inputs 1 (by decide)
-  have i2 : ρ 2 = c := g.inputs 2 (by decide)
-  have i3 : ρ 3 = d := g.inputs 3 (by decide)
-  have k4 : ρ 4 = 4294968273 := const_at false redP redP_wf _ 0 _ (by decide) rfl rfl (by decide)
-  have k5 : ρ 5 = 0 := const_at false redP redP_wf _ 1 _ (by decide) rfl rfl (by decide)
-  -- the carry chain of the comparison with p (ideal = machine: no op of the prefix wraps)
-  have c1 : ρ 6 = (a + 4294968273 + 0) / 2 ^ 64 := by
-    have := carry_at false redP redP_wf [a, b, c, d] 2 0 4 5 (by decide) rfl
-    rwa [hρ, hρ, hρ, hρ, i0, k4, k5] at this
-  have c2 : ρ 7 = (b + 0 + ρ 6) / 2 ^ 64 := by
-    have := carry_at false redP redP_wf [a, b, c, d] 3 1 5 6 (by decide) rfl
-    rwa [hρ, hρ, hρ, hρ, i1, k5] at this
-  have c3 : ρ 8 = (c + 0 + ρ 7) / 2 ^ 64 := by
-    have := carry_at false redP redP_wf [a, b, c, d] 4 2 5 7 (by decide) rfl
-    rwa [hρ, hρ, hρ, hρ, i2, k5] at this
-  have c4 : ρ 9 = (d + 0 + ρ 8) / 2 ^ 64 := by
-    have := carry_at false redP redP_wf [a, b, c, d] 5 3 5 8 (by decide) rfl
-    rwa [hρ, hρ, hρ, hρ, i3, k5] at this
-  -- machine values of the outputs
-  have hm : ∀ i, i < 17 → xval true Gen.Fe256.reduce [a, b, c, d] i = ρ i :=
-    fun i hi => xval_true_of_take Gen.Fe256.reduce cfgReduceId _ 13 i (by decide) hi g
-  have hlast : xval true Gen.Fe256.reduce [a, b, c, d] 17 = (d + ρ 15) % 2 ^ 64 := by
-    have := add_at_mach Gen.Fe256.reduce reduce_wf [a, b, c, d] 13 3 15 (by decide) rfl rfl
-    rw [hm 3 (by decide), hm 15 (by decide), i3] at this; exact this
-  have hout : reduce [a, b, c, d] = [ρ 12, ρ 14, ρ 16, (d + ρ 15) % 2 ^ 64] := by
-    show Gen.Fe256.reduce.outputs true _ = _
-    rw [outputs_eq]
-    show [_, _, _, _] = _
-    rw [hm 12 (by decide), hm 14 (by decide), hm 16 (by decide), hlast]
-  -- the exact identity and the ranges
-  have hb0 := g.outBounds 0 (by decide)
-  have hb1 := g.outBounds 1 (by decide)
-  have hb2 := g.outBounds 2 (by decide)
-  have hb3 := g.outBounds 3 (by decide)
-  have hid : ρ 12 + 2 ^ 64 * ρ 14 + 2 ^ 128 * ρ 16 + 2 ^ 192 * ρ 15 - 4294968273 * ρ 9
-      = a + 2 ^ 64 * b + 2 ^ 128 * c := by
-    have h := Int.eq_of_sub_eq_zero (Int.zero_dvd.mp g.value)
-    simp only [cfgReduceId, weightedSum, limbPoly, evalPoly, evalMono, K, List.getD_cons_zero, List.getD_cons_succ] at h
-    show redP.val _ 12 + 2 ^ 64 * redP.val _ 14 + 2 ^ 128 * redP.val _ 16 + 2 ^ 192 * redP.val _ 15 - 4294968273 * redP.val _ 9 = _
-    norm_num at h ⊢
-    linarith
-  simp only [cfgReduceId, zeros, U64, List.getD_cons_zero, List.getD_cons_succ, List.replicate] at hb0 hb1 hb2 hb3
-  obtain ⟨r1, r2, r3, r4⟩ := C18A.reduce_arith a b c d (ρ 12) (ρ 14) (ρ 16) (ρ 15) (ρ 6) (ρ 7) (ρ 8) (ρ 9) _
-    ha.1 ha.2 hb.1 hb.2 hc.1 hc.2 hd.1 hd.2 hb0.1 hb0.2 hb1.1 hb1.2 hb2.1 hb2.2 hb3.1 hb3.2 c1 c2 c3 c4 rfl hid
-  rw [hout]
-  refine ⟨⟨lim_mk _ _ _ _ ⟨hb0.1, hb0.2⟩ ⟨hb1.1, hb1.2⟩ ⟨hb2.1, hb2.2⟩ ⟨r1, r2⟩, ?_⟩, ?_⟩
-  · rw [val4]; exact r3
-  · rw [val4, val4]; exact r4
+/-- **scalar reduction**: for EVERY big-endian byte string `k` (any length, any value, leading zeros,
+    multiples of n, …) `normalizeScalar(k)` is the 32-octet big-endian encoding of `k mod n` -/
+theorem normalizeScalar_correct (k : Bytes) :
+    Bytes.decodeBE (Model.Sc256.normalizeScalar k) = Bytes.decodeBE k % nNat ∧
+      (Model.Sc256.normalizeScalar k).length = 32 :=
+  Grp.normalizeScalar_correct Sc.scalarLimbSpec zero5 Sc.zero5_inv (by decide) k
 
-/-! ## `Add` -/
+/-- non-vacuity / concrete instance: the model reduces 2^256 − 1 to 2^256 − 1 − n -/
+example : Bytes.decodeBE (Model.Sc256.normalizeScalar (List.replicate 32 0xff)) = 2 ^ 256 - 1 - nNat := by
+  rw [(normalizeScalar_correct _).1]; decide
 
-theorem val_bounds {v : Limbs} (h : Lim v) : 0 ≤ val v ∧ val v < 2 ^ 256 := by
-  obtain ⟨a, b, c, d, rfl, ha, hb, hc, hd⟩ := lim_cases h
-  rw [val4]; constructor <;> omega
-
-theorem within12 (x y : Limbs) (hx : Lim x) (hy : Lim y) :
-    inputsWithin (zeros 12) (List.replicate 12 U64) (zero4 ++ x ++ y) := by
-  have hz : AllIn 0 U64 zero4 := allIn_replicate 0 U64 0 4 (by decide) (by decide)
-  have := within_replicate_append 0 U64 zero4 _ _ _ hz (by simp) (by simp)
-    (within_replicate_append 0 U64 x _ _ _ hx.2 (by simp) (by simp)
-      (within_replicate_append 0 U64 y [] [] [] hy.2 rfl rfl within_nil))
-  rw [hx.1, hy.1] at this
-  simpa [zeros, zero4, List.append_assoc] using this
-
-/-- `Add` without its last op `v.l3 += c` -/
-def addP : Prog := Gen.Fe256.addCore.take 17
-
-/-- phase 1: the 256-bit sum with its carry:  S + 2^256·c = x + y -/
-def cfgAdd1 : Cfg :=
-  { inLo := zeros 12, inHi := List.replicate 12 U64, obs := [14, 16, 18, 20, 19],
-    outLo := zeros 5, outHi := [U64, U64, U64, U64, 1],
-    weights := [1, 2 ^ 64, 2 ^ 128, 2 ^ 192, 2 ^ 256], spec := padd (limbPoly 64 4 0 4) (limbPoly 64 4 0 8), modulus := 0 }
-/-- phase 2: folding the carry:  m0 + W·m1 + W²·m2 + W³·d3 = s0 + W·s1 + W²·s2 + K·c -/
-def cfgAdd2 : Cfg :=
-  { inLo := zeros 12, inHi := List.replicate 12 U64, obs := [24, 26, 28, 27, 14, 16, 18, 19],
-    outLo := zeros 8, outHi := [U64, U64, U64, 1, U64, U64, U64, 1],
-    weights := [1, 2 ^ 64, 2 ^ 128, 2 ^ 192, -1, -(2 ^ 64), -(2 ^ 128), -K], spec := [], modulus := 0 }
-/-- whole `Add` core: the result is ≡ x + y (mod p); the no-overflow of `v.l3 += c` is the side obligation -/
-def cfgAdd : Cfg :=
-  { inLo := zeros 12, inHi := List.replicate 12 U64, obs := Gen.Fe256.addCore.outs,
-    outLo := zeros 4, outHi := List.replicate 4 U64,
-    weights := weights 64 4 0, spec := padd (limbPoly 64 4 0 4) (limbPoly 64 4 0 8), modulus := P }
-
-theorem add1_check : check addP cfgAdd1 = true := by decide +kernel
-theorem add2_check : check addP cfgAdd2 = true := by decide +kernel
-theorem add_check : check Gen.Fe256.addCore cfgAdd = true := by decide +kernel
-
-theorem val_eq_evalR (l : Limbs) : val l = evalR 64 l := by
-  induction l with
-  | nil => rfl
-  | cons x xs ih => simp only [val, evalR, ih]
-
-/-- a program whose only `addA` reads two variables of the prefix `P.take k` -/
-theorem sideOK_single (P : Prog) (ins : List Int) (hlen : ins.length = P.nIn) (k u w : Nat)
-    (hs : sideOps P.body = [(u, w)]) (hk : k ≤ P.body.length) (hu : u < P.nIn + k) (hw : w < P.nIn + k)
-    (hsg : P.signed = false) (h : (P.take k).val ins u + (P.take k).val ins w ≤ 2 ^ 64 - 1) : SideOK P ins := by
-  intro a b hm
-  rw [hs] at hm
-  simp only [List.mem_singleton, Prod.mk.injEq] at hm
-  obtain ⟨rfl, rfl⟩ := hm
-  rw [← val_take P ins hlen k a hk hu, ← val_take P ins hlen k b hk hw, hsg]
-  exact h
-
-/-- packaging of a successful whole-program check: four 64-bit output words, value ≡ spec (mod p) -/
-theorem core_out (prog : Prog) (cfg : Cfg) (ins : List Int) (g : Guarantee prog cfg ins)
-    (hobs : cfg.obs = prog.outs) (hol : prog.outs.length = 4)
-    (holo : cfg.outLo = List.replicate cfg.obs.length 0) (hohi : cfg.outHi = List.replicate cfg.obs.length U64)
-    (hw : cfg.weights = weights 64 cfg.obs.length 0) (hm : cfg.modulus = P) :
-    Lim (run prog ins) ∧ P ∣ val (run prog ins) - evalPoly (fun i => ins.getD i 0) cfg.spec := by
-  have hout : run prog ins = prog.outs.map (prog.val ins) := outputs_true_eq prog cfg _ g
-  refine ⟨⟨by rw [hout]; simpa using hol, ?_⟩, ?_⟩
-  · rw [hout, ← hobs]; exact allIn_outputs prog cfg _ g 0 U64 holo hohi
-  · have hv := g.value
-    rw [hw, weightedSum_weights, hm, hobs] at hv
-    rw [hout, val_eq_evalR]
-    simpa using hv
-
-theorem addCore_spec (x y : Limbs) (hx : Red x) (hy : Red y) :
-    Lim (addCore x y) ∧ P ∣ val (addCore x y) - (val x + val y) := by
-  obtain ⟨a, b, c, d, rfl, ha, hb, hc, hd⟩ := lim_cases hx.1
-  obtain ⟨e, f, g', h, rfl, he, hf, hg, hh⟩ := lim_cases hy.1
-  have hwi := within12 _ _ hx.1 hy.1
-  show Lim (run Gen.Fe256.addCore [0, 0, 0, 0, a, b, c, d, e, f, g', h]) ∧
-    P ∣ val (run Gen.Fe256.addCore [0, 0, 0, 0, a, b, c, d, e, f, g', h]) - _
-  change inputsWithin _ _ [0, 0, 0, 0, a, b, c, d, e, f, g', h] at hwi
-  have hlen : [0, 0, 0, 0, a, b, c, d, e, f, g', h].length = 12 := rfl
-  have g1 := check_sound addP cfgAdd1 add1_check _ hlen hwi (sideOK_of_none _ _ rfl)
-  have g2 := check_sound addP cfgAdd2 add2_check _ hlen hwi (sideOK_of_none _ _ rfl)
-  have hX := hx.2; have hY := hy.2
-  rw [val4] at hX hY
-  unfold P at hX hY
-  have hside : SideOK Gen.Fe256.addCore [0, 0, 0, 0, a, b, c, d, e, f, g', h] := by
-    apply sideOK_single _ _ hlen 17 20 27 rfl (by decide) (by decide) (by decide) rfl
-    show addP.val _ 20 + addP.val _ 27 ≤ _
-    have b0 := g1.outBounds 0 (by decide)
-    have b1 := g1.outBounds 1 (by decide)
-    have b2 := g1.outBounds 2 (by decide)
-    have b3 := g1.outBounds 3 (by decide)
-    have b4 := g1.outBounds 4 (by decide)
-    have d0 := g2.outBounds 0 (by decide)
-    have d1 := g2.outBounds 1 (by decide)
-    have d2 := g2.outBounds 2 (by decide)
-    have d3 := g2.outBounds 3 (by decide)
-    have id1 := Int.eq_of_sub_eq_zero (Int.zero_dvd.mp g1.value)
-    have id2 := Int.eq_of_sub_eq_zero (Int.zero_dvd.mp g2.value)
-    simp only [cfgAdd1, cfgAdd2, zeros, U64, List.getD_cons_zero, List.getD_cons_succ, List.replicate] at b0 b1 b2 b3 b4 d0 d1 d2 d3
-    simp only [cfgAdd1, cfgAdd2, weightedSum, evalPoly_padd, limbPoly, evalPoly, evalMono, K,
-      List.getD_cons_zero, List.getD_cons_succ] at id1 id2
-    generalize addP.val [0, 0, 0, 0, a, b, c, d, e, f, g', h] = ρ at *
-    norm_num at id1 id2
-    exact C18A.add_side _ _ _ _ _ _ _ _ _ _ _ hX hY b0.1 b0.2 b1.1 b1.2 b2.1 b2.2 b3.1 b3.2 b4.1 b4.2
-      d0.1 d0.2 d1.1 d1.2 d2.1 d2.2 d3.1 d3.2 (by linarith) (by linarith)
-  have g3 := check_sound Gen.Fe256.addCore cfgAdd add_check _ hlen hwi hside
-  obtain ⟨l, v⟩ := core_out Gen.Fe256.addCore cfgAdd _ g3 rfl rfl rfl rfl rfl rfl
-  refine ⟨l, ?_⟩
-  have : evalPoly (fun i => [0, 0, 0, 0, a, b, c, d, e, f, g', h].getD i 0) cfgAdd.spec
-      = val [a, b, c, d] + val [e, f, g', h] := by
-    simp only [cfgAdd, evalPoly_padd, limbPoly, evalPoly, evalMono,
-      List.getD_cons_zero, List.getD_cons_succ, val]
-    norm_num
-    ring
-  rw [this] at v
-  exact v
-
-theorem add_spec (x y : Limbs) (hx : Red x) (hy : Red y) :
-    Red (add x y) ∧ val (add x y) = (val x + val y) % P := by
-  obtain ⟨l, hv⟩ := addCore_spec x y hx hy
-  obtain ⟨r, e⟩ := reduce_spec (addCore x y) l
-  refine ⟨r, ?_⟩
-  show val (reduce (addCore x y)) = _
-  rw [e]
-  exact Int.emod_eq_emod_iff_emod_sub_eq_zero.mpr (Int.emod_eq_zero_of_dvd hv)
-
-/-! ## `Neg`, `Sub` -/
-
-theorem within8 (x : Limbs) (hx : Lim x) :
-    inputsWithin (zeros 8) (List.replicate 8 U64) (zero4 ++ x) := by
-  have hz : AllIn 0 U64 zero4 := allIn_replicate 0 U64 0 4 (by decide) (by decide)
-  have := within_replicate_append 0 U64 zero4 _ _ _ hz (by simp) (by simp)
-      (within_replicate_append 0 U64 x [] [] [] hx.2 rfl rfl within_nil)
-  rw [hx.1] at this
-  simpa [zeros, zero4] using this
-
-/-- exact identity of the borrow chain:  Σ outᵢ·2^(64i) − 2^256·borrow = p − x  (the borrow that the
-    Go code discards with `_` is observed) -/
-def cfgNeg : Cfg :=
-  { inLo := zeros 8, inHi := List.replicate 8 U64, obs := [11, 14, 16, 18, 17],
-    outLo := zeros 5, outHi := [U64, U64, U64, U64, 1],
-    weights := [1, 2 ^ 64, 2 ^ 128, 2 ^ 192, -(2 ^ 256)], spec := padd (pconst P) (pneg (limbPoly 64 4 0 4)), modulus := 0 }
-
-theorem neg_check : check Gen.Fe256.negCore cfgNeg = true := by decide +kernel
-theorem neg_outs : Gen.Fe256.negCore.outs = [11, 14, 16, 18] := rfl
-
-/-- the borrow chain of `Neg` computes exactly `p − x` for x ≤ p (no borrow out) -/
-theorem negCore_exact (x : Limbs) (hx : Lim x) (hle : val x ≤ P) : Lim (negCore x) ∧ val (negCore x) = P - val x := by
-  obtain ⟨a, b, c, d, rfl, ha, hb, hc, hd⟩ := lim_cases hx
-  have hwi := within8 _ hx
-  show Lim (run Gen.Fe256.negCore [0, 0, 0, 0, a, b, c, d]) ∧ val (run Gen.Fe256.negCore [0, 0, 0, 0, a, b, c, d]) = _
-  change inputsWithin _ _ [0, 0, 0, 0, a, b, c, d] at hwi
-  have g := check_sound Gen.Fe256.negCore cfgNeg neg_check _ rfl hwi (sideOK_of_none _ _ rfl)
-  have hout : run Gen.Fe256.negCore [0, 0, 0, 0, a, b, c, d] = Gen.Fe256.negCore.outs.map (Gen.Fe256.negCore.val _) :=
-    outputs_true_eq _ cfgNeg _ g
-  have b0 := g.outBounds 0 (by decide)
-  have b1 := g.outBounds 1 (by decide)
-  have b2 := g.outBounds 2 (by decide)
-  have b3 := g.outBounds 3 (by decide)
-  have b4 := g.outBounds 4 (by decide)
-  have id1 := Int.eq_of_sub_eq_zero (Int.zero_dvd.mp g.value)
-  simp only [cfgNeg, zeros, U64, List.getD_cons_zero, List.getD_cons_succ, List.replicate] at b0 b1 b2 b3 b4
-  simp only [cfgNeg, weightedSum, evalPoly_padd, evalPoly_pneg,
-    evalPoly_pconst, limbPoly, evalPoly, evalMono, List.getD_cons_zero, List.getD_cons_succ] at id1
-  rw [val4] at hle ⊢
-  rw [hout, neg_outs]
-  show Lim [_, _, _, _] ∧ val [_, _, _, _] = _
-  rw [val4]
-  generalize Prog.val _ [0, 0, 0, 0, a, b, c, d] = ρ at *
-  unfold P at hle id1 ⊢
-  norm_num at id1
-  have hbw : ρ 17 = 0 := by omega
-  rw [hbw] at id1
-  exact ⟨lim_mk _ _ _ _ b0 b1 b2 b3, by linarith⟩
-
-theorem neg_spec (x : Limbs) (hx : Red x) : Red (neg x) ∧ val (neg x) = (- val x) % P := by
-  obtain ⟨l, e⟩ := negCore_exact x hx.1 (le_of_lt hx.2)
-  obtain ⟨r, e2⟩ := reduce_spec (negCore x) l
-  refine ⟨r, ?_⟩
-  show val (reduce (negCore x)) = _
-  rw [e2, e]
-  have : P - val x = - val x + P * 1 := by ring
-  rw [this, Int.add_mul_emod_self_left]
-
-/-- detector of the former defect (`Neg(0) = p`): on the fixed tree `Neg(0)` is 0 -/
-theorem neg_zero : neg zero = zero := by decide +kernel
-
-theorem sub_spec (x y : Limbs) (hx : Red x) (hy : Red y) :
-    Red (sub x y) ∧ val (sub x y) = (val x - val y) % P := by
-  obtain ⟨r, e⟩ := neg_spec y hy
-  obtain ⟨r2, e2⟩ := add_spec x (neg y) hx r
-  refine ⟨r2, ?_⟩
-  show val (add x (neg y)) = _
-  rw [e2, e, Int.add_emod_emod]; rfl
-
-/-! ## byte decoding: `setBytes` (range check) and the `SetBytes` wrapper -/
-
-def cfgSetBytes : Cfg :=
-  { inLo := zeros 36, inHi := List.replicate 4 U64 ++ List.replicate 32 255, obs := [119, 98, 77, 56],
-    outLo := zeros 4, outHi := List.replicate 4 U64,
-    weights := weights 64 4 0, spec := bePoly 32 4, modulus := 0 }
-
-theorem setBytes_check : check Gen.Fe256.setBytes cfgSetBytes = true := by decide +kernel
-theorem setBytes_wf : opsLt Gen.Fe256.setBytes.nIn Gen.Fe256.setBytes.body := by decide
-theorem setBytes_outs : Gen.Fe256.setBytes.outs = [119, 98, 77, 56, 125] := rfl
-
-/-- `setBytes` on 32 octets: the limbs hold exactly the big-endian integer, and the returned carry is
-    0 exactly for values below p -/
-theorem setBytesRaw_spec (buf : List Int) (hl : buf.length = 32) (hb : AllIn 0 255 buf) :
-    Lim (setBytesRaw buf).1 ∧ val (setBytesRaw buf).1 = evalBE buf ∧
-      ((setBytesRaw buf).2 = 0 ∨ (setBytesRaw buf).2 = 1) ∧
-      ((setBytesRaw buf).2 = 0 ↔ evalBE buf < P) := by
-  have hz : AllIn 0 U64 zero4 := allIn_replicate 0 U64 0 4 (by decide) (by decide)
-  have hwi : inputsWithin cfgSetBytes.inLo cfgSetBytes.inHi (zero4 ++ buf) := by
-    have := within_replicate_append 0 U64 zero4 _ _ _ hz (by simp) (by simp)
-      (within_replicate_append 0 255 buf [] [] [] hb rfl rfl within_nil)
-    rw [hl] at this
-    simpa [zeros, zero4, cfgSetBytes] using this
-  have hlen : (zero4 ++ buf).length = Gen.Fe256.setBytes.nIn := by simp [zero4, hl]; rfl
-  have g := check_sound Gen.Fe256.setBytes cfgSetBytes setBytes_check _ hlen hwi (sideOK_of_none _ _ rfl)
-  let ρ := Gen.Fe256.setBytes.val (zero4 ++ buf)
-  have hρ : ∀ i, xval false Gen.Fe256.setBytes (zero4 ++ buf) i = ρ i := fun _ => rfl
-  have hout : run Gen.Fe256.setBytes (zero4 ++ buf) = [ρ 119, ρ 98, ρ 77, ρ 56, ρ 125] := by
-    have := outputs_true_eq _ cfgSetBytes _ g
-    rw [setBytes_outs] at this; exact this
-  have e1 : (setBytesRaw buf).1 = [ρ 119, ρ 98, ρ 77, ρ 56] := by
-    show (run Gen.Fe256.setBytes (zero4 ++ buf)).take 4 = _
-    rw [hout]; rfl
-  have e2 : (setBytesRaw buf).2 = ρ 125 := by
-    show (run Gen.Fe256.setBytes (zero4 ++ buf)).getD 4 0 = _
-    rw [hout]; rfl
-  have b0 := g.outBounds 0 (by decide)
-  have b1 := g.outBounds 1 (by decide)
-  have b2 := g.outBounds 2 (by decide)
-  have b3 := g.outBounds 3 (by decide)
-  simp only [cfgSetBytes, zeros, U64, List.getD_cons_zero, List.getD_cons_succ, List.replicate] at b0 b1 b2 b3
-  have hval : val [ρ 119, ρ 98, ρ 77, ρ 56] = evalBE buf := by
-    have hv := g.value
-    have ew : cfgSetBytes.weights = weights 64 cfgSetBytes.obs.length 0 := rfl
-    have es : cfgSetBytes.spec = bePoly 32 4 := rfl
-    have em : cfgSetBytes.modulus = 0 := rfl
-    rw [ew, weightedSum_weights, es, em, evalPoly_bePoly] at hv
-    have hr := range'_map_getD_append zero4 buf []
-    rw [hl] at hr
-    simp only [List.append_nil] at hr
-    have hz4 : zero4.length = 4 := rfl
-    rw [hz4] at hr
-    rw [hr] at hv
-    have := Int.eq_of_sub_eq_zero (Int.zero_dvd.mp hv)
-    rw [val_eq_evalR]
-    simpa [cfgSetBytes] using this
-  have k4 : ρ 120 = 4294968273 := const_at false _ setBytes_wf _ 84 _ (by decide) rfl rfl (by decide)
-  have k5 : ρ 121 = 0 := const_at false _ setBytes_wf _ 85 _ (by decide) rfl rfl (by decide)
-  have c1 : ρ 122 = (ρ 119 + 4294968273 + 0) / 2 ^ 64 := by
-    have := carry_at false _ setBytes_wf (zero4 ++ buf) 86 119 120 121 (by decide) rfl
-    rwa [hρ, hρ, hρ, hρ, k4, k5] at this
-  have c2 : ρ 123 = (ρ 98 + 0 + ρ 122) / 2 ^ 64 := by
-    have := carry_at false _ setBytes_wf (zero4 ++ buf) 87 98 121 122 (by decide) rfl
-    rwa [hρ, hρ, hρ, hρ, k5] at this
-  have c3 : ρ 124 = (ρ 77 + 0 + ρ 123) / 2 ^ 64 := by
-    have := carry_at false _ setBytes_wf (zero4 ++ buf) 88 77 121 123 (by decide) rfl
-    rwa [hρ, hρ, hρ, hρ, k5] at this
-  have c4 : ρ 125 = (ρ 56 + 0 + ρ 124) / 2 ^ 64 := by
-    have := carry_at false _ setBytes_wf (zero4 ++ buf) 89 56 121 124 (by decide) rfl
-    rwa [hρ, hρ, hρ, hρ, k5] at this
-  obtain ⟨q1, q2⟩ := C18A.cmp_chain _ _ _ _ _ _ _ _ b0.1 b0.2 b1.1 b1.2 b2.1 b2.2 b3.1 b3.2 c1 c2 c3 c4
-  rw [e1, e2, hval]
-  refine ⟨lim_mk _ _ _ _ b0 b1 b2 b3, rfl, q1, ?_⟩
-  rw [q2, ← hval, val4]; rfl
-
-theorem setBytes32_spec (buf : List Int) (hl : buf.length = 32) (hb : AllIn 0 255 buf) :
-    (evalBE buf < P → ∃ v, setBytes32 buf = .ok v ∧ Red v ∧ val v = evalBE buf) ∧
-    (P ≤ evalBE buf → setBytes32 buf = .err "overflow") := by
-  obtain ⟨l, e, c01, ciff⟩ := setBytesRaw_spec buf hl hb
-  constructor
-  · intro hlt
-    refine ⟨(setBytesRaw buf).1, ?_, ⟨l, by rw [e]; exact hlt⟩, e⟩
-    unfold setBytes32
-    simp only [ciff.mpr hlt, ne_eq, not_true_eq_false, if_false]
-  · intro hge
-    unfold setBytes32
-    have : (setBytesRaw buf).2 ≠ 0 := fun h => absurd (ciff.mp h) (not_lt.mpr hge)
-    simp only [ne_eq, this, not_false_eq_true, if_true]
-
-/-- **byte decoding**: `SetBytes` accepts exactly the big-endian values below p (shorter inputs are
-    left-padded with zeros), returns the fully reduced element of that value, and panics for more than
-    32 octets -/
-theorem setBytes_spec (x : Bytes) :
-    (32 < x.length → setBytes x = .panic "fe256.SetBytes.toolong") ∧
-    (x.length ≤ 32 →
-      ((Bytes.decodeBE x : Int) < P → ∃ v, setBytes x = .ok v ∧ Red v ∧ val v = Bytes.decodeBE x) ∧
-      (P ≤ (Bytes.decodeBE x : Int) → setBytes x = .err "overflow")) := by
-  constructor
-  · intro h; unfold setBytes; simp [h]
-  · intro h
-    have hnot : ¬ x.length > 32 := by omega
-    have hbuf : evalBE (List.replicate (32 - x.length) 0 ++ bytesToInts x) = (Bytes.decodeBE x : Int) := by
-      rw [evalBE_append, evalBE_replicate_zero]
-      show 0 * _ + evalBE (ofBytes x) = _
-      rw [evalBE_ofBytes]; simp
-    have hl : (List.replicate (32 - x.length) (0 : Int) ++ bytesToInts x).length = 32 := by
-      simp [bytesToInts]; omega
-    have hb : AllIn 0 255 (List.replicate (32 - x.length) (0 : Int) ++ bytesToInts x) := by
-      intro y hy
-      rcases List.mem_append.mp hy with h1 | h1
-      · rw [List.eq_of_mem_replicate h1]; exact ⟨le_refl _, by decide⟩
-      · exact allIn_ofBytes x y h1
-    obtain ⟨s1, s2⟩ := setBytes32_spec _ hl hb
-    rw [hbuf] at s1 s2
-    unfold setBytes
-    simp only [hnot, if_false]
-    exact ⟨s1, s2⟩
-
-/-! ## byte encoding -/
-
-def cfgBytes : Cfg :=
-  { inLo := zeros 4, inHi := List.replicate 4 U64, obs := Gen.Fe256.bytes.outs,
-    outLo := List.replicate 32 0, outHi := List.replicate 32 255,
-    weights := weightsBE 32, spec := limbPoly 64 4 0 0, modulus := 0 }
-
-theorem bytes_check : check Gen.Fe256.bytes cfgBytes = true := by decide +kernel
-
-theorem bytesInts_spec (v : Limbs) (hv : Lim v) :
-    (bytesInts v).length = 32 ∧ AllIn 0 255 (bytesInts v) ∧ evalBE (bytesInts v) = val v := by
-  have g := check_sound Gen.Fe256.bytes cfgBytes bytes_check v hv.1 (lim_within v hv) (sideOK_of_none _ _ rfl)
-  have hout : bytesInts v = Gen.Fe256.bytes.outs.map (Gen.Fe256.bytes.val v) := outputs_true_eq _ cfgBytes _ g
-  refine ⟨by rw [hout]; rfl, ?_, ?_⟩
-  · rw [hout]; exact allIn_outputs _ cfgBytes _ g 0 255 rfl rfl
-  · have h := g.value
-    have ew : cfgBytes.weights = weightsBE cfgBytes.obs.length := rfl
-    have es : cfgBytes.spec = limbPoly 64 4 0 0 := rfl
-    have em : cfgBytes.modulus = 0 := rfl
-    rw [ew, weightedSum_weightsBE, es, em, evalPoly_limbPoly] at h
-    have hr := range'_map_getD_append [] v []
-    rw [hv.1] at hr
-    simp only [List.append_nil, List.nil_append, List.length_nil] at hr
-    rw [hr] at h
-    rw [hout, val_eq_evalR]
-    have := Int.eq_of_sub_eq_zero (Int.zero_dvd.mp h)
-    simpa [cfgBytes] using this
-
-theorem ofBytes_intsToBytes (l : List Int) (h : AllIn 0 255 l) : ofBytes (intsToBytes l) = l := by
-  unfold ofBytes intsToBytes
-  rw [List.map_map]
-  conv_rhs => rw [← List.map_id l]
-  apply List.map_congr_left
-  intro x hx
-  obtain ⟨h0, h1⟩ := h x hx
-  simp only [Function.comp, id]
-  have : x.toNat < 256 := by omega
-  rw [UInt8.toNat_ofNat_of_lt' (by simpa using this)]
-  omega
-
-/-- **byte encoding**: 32 octets whose big-endian value is exactly the value of the element -/
-theorem bytes_spec (v : Limbs) (hv : Lim v) :
-    (bytes v).length = 32 ∧ (Bytes.decodeBE (bytes v) : Int) = val v := by
-  obtain ⟨l, r, e⟩ := bytesInts_spec v hv
-  refine ⟨by simp [bytes, intsToBytes, l], ?_⟩
-  rw [← evalBE_ofBytes]
-  show evalBE (ofBytes (intsToBytes (bytesInts v))) = _
-  rw [ofBytes_intsToBytes _ r, e]
-
-theorem val_inj {u v : Limbs} (hu : Lim u) (hv : Lim v) (h : val u = val v) : u = v := by
-  obtain ⟨a, b, c, d, rfl, ha, hb, hc, hd⟩ := lim_cases hu
-  obtain ⟨e, f, g', h', rfl, he, hf, hg, hh⟩ := lim_cases hv
-  rw [val4, val4] at h
-  have h1 : a = e := by omega
-  subst h1
-  have h2 : b = f := by omega
-  subst h2
-  have h3 : c = g' := by omega
-  subst h3
-  have h4 : d = h' := by omega
-  subst h4
-  rfl
-
-/-- decoding the encoding of a reduced element gives the element back -/
-theorem bytes_setBytes (v : Limbs) (hv : Red v) : setBytes (bytes v) = .ok v := by
-  obtain ⟨l, e⟩ := bytes_spec v hv.1
-  obtain ⟨_, h2⟩ := setBytes_spec (bytes v)
-  obtain ⟨s1, _⟩ := h2 (by omega)
-  obtain ⟨w, hw, rw', ew⟩ := s1 (by rw [e]; exact hv.2)
-  rw [hw]
-  congr 1
-  exact val_inj rw'.1 hv.1 (by rw [ew, e])
-
-/-! ## `Equal`, `IsZero`, `Select`, `Swap` -/
-
-theorem toNat_lt {a : Int} (h : 0 ≤ a ∧ a ≤ 2 ^ 64 - 1) : a.toNat < 2 ^ 64 := by omega
-
-theorem isZero_spec (v : Limbs) (hv : Lim v) : isZero v = if val v = 0 then 1 else 0 := by
-  obtain ⟨a, b, c, d, rfl, ha, hb, hc, hd⟩ := lim_cases hv
-  unfold isZero
-  simp only [limbN, List.getD_cons_zero, List.getD_cons_succ]
-  rw [C18Bits.isZeroWord_spec _ (C18Bits.or4_lt _ _ _ _ (toNat_lt ha) (toNat_lt hb) (toNat_lt hc) (toNat_lt hd)),
-    val4]
-  apply if_congr _ rfl rfl
-  rw [C18Bits.or4_zero]
-  constructor
-  · rintro ⟨h1, h2, h3, h4⟩; omega
-  · intro h; omega
-
-theorem equal_spec (u v : Limbs) (hu : Lim u) (hv : Lim v) : equal u v = if u = v then 1 else 0 := by
-  obtain ⟨a, b, c, d, rfl, ha, hb, hc, hd⟩ := lim_cases hu
-  obtain ⟨e, f, g', h, rfl, he, hf, hg, hh⟩ := lim_cases hv
-  unfold equal
-  simp only [limbN, List.getD_cons_zero, List.getD_cons_succ]
-  rw [C18Bits.isZeroWord_spec _ (C18Bits.or4_lt _ _ _ _ (Nat.xor_lt_two_pow (toNat_lt ha) (toNat_lt he))
-    (Nat.xor_lt_two_pow (toNat_lt hb) (toNat_lt hf)) (Nat.xor_lt_two_pow (toNat_lt hc) (toNat_lt hg))
-    (Nat.xor_lt_two_pow (toNat_lt hd) (toNat_lt hh)))]
-  apply if_congr _ rfl rfl
-  rw [C18Bits.or4_zero]
-  simp only [C18Bits.xor_eq_zero_iff]
-  constructor
-  · rintro ⟨h1, h2, h3, h4⟩
-    have : a = e := by omega
-    have : b = f := by omega
-    have : c = g' := by omega
-    have : d = h := by omega
-    subst_vars; rfl
-  · intro h; injection h with h1 h; injection h with h2 h; injection h with h3 h; injection h with h4 h
-    subst_vars; exact ⟨rfl, rfl, rfl, rfl⟩
-
-/-- for fully reduced operands `Equal` decides equality of the residues -/
-theorem equal_iff (u v : Limbs) (hu : Red u) (hv : Red v) : equal u v = 1 ↔ val u = val v := by
-  rw [equal_spec u v hu.1 hv.1]
-  constructor
-  · intro h; split at h
-    · next e => rw [e]
-    · cases h
-  · intro h; rw [if_pos (val_inj hu.1 hv.1 h)]
-
-theorem natCast_toNat {a : Int} (h : 0 ≤ a ∧ a ≤ 2 ^ 64 - 1) : ((a.toNat : Nat) : Int) = a := by omega
-
-theorem select_spec (a b : Limbs) (ha : Lim a) (hb : Lim b) : select a b 1 = a ∧ select a b 0 = b := by
-  obtain ⟨a0, a1, a2, a3, rfl, h0, h1, h2, h3⟩ := lim_cases ha
-  obtain ⟨b0, b1, b2, b3, rfl, k0, k1, k2, k3⟩ := lim_cases hb
-  constructor
-  · unfold select
-    simp only [C18Bits.maskOf_one, limbN, List.range, List.range.loop, List.map_cons, List.map_nil,
-      List.getD_cons_zero, List.getD_cons_succ]
-    rw [C18Bits.sel_one _ _ (toNat_lt h0), C18Bits.sel_one _ _ (toNat_lt h1), C18Bits.sel_one _ _ (toNat_lt h2),
-      C18Bits.sel_one _ _ (toNat_lt h3), natCast_toNat h0, natCast_toNat h1, natCast_toNat h2, natCast_toNat h3]
-  · unfold select
-    simp only [C18Bits.maskOf_zero, limbN, List.range, List.range.loop, List.map_cons, List.map_nil,
-      List.getD_cons_zero, List.getD_cons_succ]
-    rw [C18Bits.sel_zero _ _ (toNat_lt k0), C18Bits.sel_zero _ _ (toNat_lt k1), C18Bits.sel_zero _ _ (toNat_lt k2),
-      C18Bits.sel_zero _ _ (toNat_lt k3), natCast_toNat k0, natCast_toNat k1, natCast_toNat k2, natCast_toNat k3]
-
-theorem swap_spec (v u : Limbs) (hv : Lim v) (hu : Lim u) : swap v u 1 = (u, v) ∧ swap v u 0 = (v, u) := by
-  obtain ⟨a0, a1, a2, a3, rfl, h0, h1, h2, h3⟩ := lim_cases hv
-  obtain ⟨b0, b1, b2, b3, rfl, k0, k1, k2, k3⟩ := lim_cases hu
-  constructor
-  · unfold swap
-    simp only [C18Bits.maskOf_one, limbN, List.range, List.range.loop, List.map_cons, List.map_nil,
-      List.getD_cons_zero, List.getD_cons_succ]
-    rw [(C18Bits.swap_one _ _ (toNat_lt h0) (toNat_lt k0)).1, (C18Bits.swap_one _ _ (toNat_lt h0) (toNat_lt k0)).2,
-      (C18Bits.swap_one _ _ (toNat_lt h1) (toNat_lt k1)).1, (C18Bits.swap_one _ _ (toNat_lt h1) (toNat_lt k1)).2,
-      (C18Bits.swap_one _ _ (toNat_lt h2) (toNat_lt k2)).1, (C18Bits.swap_one _ _ (toNat_lt h2) (toNat_lt k2)).2,
-      (C18Bits.swap_one _ _ (toNat_lt h3) (toNat_lt k3)).1, (C18Bits.swap_one _ _ (toNat_lt h3) (toNat_lt k3)).2,
-      natCast_toNat h0, natCast_toNat h1, natCast_toNat h2, natCast_toNat h3,
-      natCast_toNat k0, natCast_toNat k1, natCast_toNat k2, natCast_toNat k3]
-  · unfold swap
-    simp only [C18Bits.maskOf_zero, limbN, List.range, List.range.loop, List.map_cons, List.map_nil,
-      List.getD_cons_zero, List.getD_cons_succ]
-    rw [(C18Bits.swap_zero _ _).1, (C18Bits.swap_zero _ _).2, (C18Bits.swap_zero _ _).1, (C18Bits.swap_zero _ _).2,
-      (C18Bits.swap_zero _ _).1, (C18Bits.swap_zero _ _).2, (C18Bits.swap_zero _ _).1, (C18Bits.swap_zero _ _).2,
-      natCast_toNat h0, natCast_toNat h1, natCast_toNat h2, natCast_toNat h3,
-      natCast_toNat k0, natCast_toNat k1, natCast_toNat k2, natCast_toNat k3]
 end C18
